@@ -312,6 +312,9 @@ fn poll_auth(f: &mut AuthFut) -> Poll<Result<Response<Bytes>, std::convert::Infa
     f.as_mut().poll(&mut cx)
 }
 
+const REFUSAL_STATUS: [StatusCode; 5] = [StatusCode::TooManyRequests, StatusCode::Success, StatusCode::NotFound,
+                                         StatusCode::BadRequest, StatusCode::InternalServerError];
+
 pub fn replay_auth(a: &Args) -> i32 {
     let tables: Value =
         serde_json::from_str(&std::fs::read_to_string(a.str("table", "")).expect("table")).unwrap();
@@ -461,8 +464,10 @@ pub fn replay_auth(a: &Args) -> i32 {
             if req.headers().get("verdict").map(|s| s.as_str()) == Some("ok") {
                 Ok(())
             } else {
+                // the refusal is the authorizer's to word: any status (success included), body, headers
+                let n: u64 = rid.parse().unwrap_or(0);
                 Err(Response::new(Bytes::from(format!("denied-{rid}")))
-                    .with_status(StatusCode::TooManyRequests)
+                    .with_status(REFUSAL_STATUS[(n % REFUSAL_STATUS.len() as u64) as usize])
                     .with_header("why", format!("policy-{rid}")))
             }
         });
@@ -476,13 +481,15 @@ pub fn replay_auth(a: &Args) -> i32 {
             match step["act"].as_str().unwrap() {
                 "call" => {
                     let v = step["arg"].as_str().unwrap();
+                    // requests come from two peers (the verdict is per request, not per sender)
                     let req = Request::new(Bytes::from(format!("payload-{r}")))
                         .with_header("rid", r.to_string())
-                        .with_header("verdict", v);
+                        .with_header("verdict", v)
+                        .with_extension(peer_id(1 + r % 2));
                     let mut f: AuthFut = Box::pin(clones[(r % 2) as usize].call(req));
                     match poll_auth(&mut f) {
                         Poll::Ready(Ok(res)) => {
-                            let exact = res.status() == StatusCode::TooManyRequests
+                            let exact = res.status() == REFUSAL_STATUS[(r % REFUSAL_STATUS.len() as u64) as usize]
                                 && res.body() == &Bytes::from(format!("denied-{r}"))
                                 && res.headers().len() == 1
                                 && res.headers().get("why") == Some(&format!("policy-{r}"));
